@@ -96,6 +96,16 @@ Theorem float_mul_no_division_over_zero : forall w smin smax lo hi c, fin lo -> 
   mul_back w smin smax (VlF lo) (VlF hi) c = Some c.
 Proof. exact mul_back_inert_over_zero. Qed.
 Print Assumptions float_mul_no_division_over_zero.
+(* the bounds handed to s.try_set_min / s.try_set_max (and the candidate quotients handed to x / y) are the least / greatest
+   element of the list of finite f64 values they are folded from, whatever the order of the list *)
+Theorem float_mul_fold_min_extremal : forall l a, fin a -> Forall fin l ->
+  exists m, val_fold_min (VlF a) (map VlF l) = VlF m /\ fin m /\ In m (a :: l) /\ (R_ m <= R_ a)%R /\ Forall (fun x => (R_ m <= R_ x)%R) l.
+Proof. exact fold_min_f. Qed.
+Print Assumptions float_mul_fold_min_extremal.
+Theorem float_mul_fold_max_extremal : forall l a, fin a -> Forall fin l ->
+  exists m, val_fold_max (VlF a) (map VlF l) = VlF m /\ fin m /\ In m (a :: l) /\ (R_ a <= R_ m)%R /\ Forall (fun x => (R_ x <= R_ m)%R) l.
+Proof. exact fold_max_f. Qed.
+Print Assumptions float_mul_fold_max_extremal.
 (* non-vacuity / closed witness: x in 5..20, y in [-5.0, 0.0], s in [-10.0, -1.0] (the demonstration of seeded change C07d) *)
 Example float_mul_witness : range_unsafe (fv_min (FVar 1) w_mul_store) (fv_max (FVar 1) w_mul_store) = true /\
   match prune_fmul (FVar 0) (FVar 1) 2 (w_mul_store, []) with
